@@ -692,17 +692,86 @@ pub fn run(thorough: bool, mut rng: Rng, mut out: Out) {
     ] {
         rfc_reading(&mut out, s, canonical);
     }
-    // deep nesting (each level is a native recursion of the real parser)
-    for d in [1usize, 10, 63, 64, 100, 500, 2000] {
+    // deep nesting (each level is a native recursion of the real parser); 128 levels is the limit
+    // of `nesting_within_limit` (repair of F28), met from both sides with each operator
+    for d in [1usize, 10, 63, 64, 100, 126, 127, 128, 129, 500, 2000] {
+        for op in [b'!', b'&', b'|'] {
+            let mut s = vec![];
+            for _ in 0..d {
+                s.push(b'(');
+                s.push(op);
+            }
+            s.extend(b"(a=b)");
+            for _ in 0..d {
+                s.push(b')');
+            }
+            crate::out::mark(&format!("filter.parse {}", hex(&s)));
+            let got = check_string(&mut out, &s, "nest");
+            // d operators around `(a=b)`: d + 1 levels of parentheses
+            out.stat(if d + 1 <= 128 { "nest.within-limit" } else { "nest.beyond-limit" });
+            out.r(
+                &format!("filter.nesting-limit depth={} op={}", d + 1, op as char),
+                matches!(got, Outc::Ok(_)) == (d + 1 <= 128),
+                &format!("{} levels: {}", d + 1, if matches!(got, Outc::Ok(_)) { "accepted" } else { "not accepted" }),
+            );
+        }
+    }
+    // the counter of the guard: a `)` at depth 0 leaves it at 0; siblings do not add up; parentheses
+    // that are unbalanced are counted all the same
+    {
+        let mut wide = b"(&".to_vec();
+        for _ in 0..300 {
+            wide.extend(b"(!(a=b))");
+        }
+        wide.push(b')');
+        let got = check_string(&mut out, &wide, "nest");
+        out.r("filter.nesting-limit wide-not-deep", matches!(got, Outc::Ok(_)), "300 siblings, 3 levels: not accepted");
+        let mut s = vec![b')'; 200];
+        s.extend(b"(a=b)");
+        check_string(&mut out, &s, "nest");
+        check_string(&mut out, &vec![b'('; 128], "nest");
+        check_string(&mut out, &vec![b'('; 129], "nest");
         let mut s = vec![];
+        for _ in 0..100 {
+            s.extend(b"(!");
+        }
+        s.extend(b"(a=b)");
+        s.extend(vec![b')'; 50]);
+        for _ in 0..100 {
+            s.extend(b"(!");
+        }
+        check_string(&mut out, &s, "nest");
+    }
+    // F28: a filter string nested some ten thousand levels deep exhausted the native stack of the
+    // recursive-descent parser (release build: between 30 000 and 100 000 levels on an 8 MiB stack);
+    // the process died — no error, no panic to catch. Expected: an error. (The lane marks the input
+    // first, so a crash is reported with it.)
+    for d in [30_000usize, 100_000, 1_000_000] {
+        let mut s = Vec::with_capacity(3 * d + 5);
         for _ in 0..d {
             s.extend(b"(!");
         }
         s.extend(b"(a=b)");
-        for _ in 0..d {
-            s.push(b')');
+        s.resize(3 * d + 5, b')');
+        crate::out::mark(&format!("filter.parse (! x {} (a=b) ) x {}", d, d));
+        let got = if d <= 30_000 { check_string(&mut out, &s, "nest") } else { real(&s) };
+        out.case(&format!("nest-deep {}", d), true);
+        out.stat("nest.f28-witness");
+        out.r(
+            &format!("filter.deep-nesting-is-an-error-not-a-crash depth={}", d + 1),
+            got == Outc::Reject,
+            &format!("{} levels: {}", d + 1, got.show().chars().take(20).collect::<String>()),
+        );
+    }
+    // … and inside a value the parentheses are escaped: no level is opened by `\28`
+    {
+        let mut s = b"(a=".to_vec();
+        for _ in 0..500 {
+            s.extend(b"\\28");
         }
-        check_string(&mut out, &s, "nest");
+        s.push(b')');
+        let got = check_string(&mut out, &s, "nest");
+        out.r("filter.nesting-limit escaped-parens-are-not-levels", matches!(got, Outc::Ok(_)), "500 escaped '(' in a value: not accepted");
     }
 
     // ---- (i) exhaustive short strings over the alphabet
